@@ -18,7 +18,8 @@ CLAIM = (
     "translates \\\\uXXXX before lexing, also inside comments, so a backslash followed by `u` in the text needs neutralising; (6) XML-ESC: "
     "text nodes of C# documentation are XML-escaped where they are rendered, Java text is HTML-escaped; (7) TAINT: free-text attributes of "
     "the IR (invariant descriptions, enumeration literal values, constant values, patterns, the XML namespace) reach generated code only "
-    "through the target's literal functions, comparisons or error messages. C19 decides that those literal functions are sound."
+    "through the target's literal functions, comparisons or error messages. The literal functions themselves are judged with the rule of C19 (CHR: per "
+    "character class, forbidden characters never raw, only legal escapes), which is also run here."
 )
 NOTE = (
     "Trusted base: the table of IR free-text attributes and of admissible consumers (sa/props/c20.py); the annotation-driven typer. Not "
@@ -51,6 +52,16 @@ def run(ctx) -> None:
     check_line_comments(ctx)
     check_xml_escape(ctx)
     check_taint(ctx)
+    # the literal functions themselves (shared with C19): a literal that lets its delimiter, a backslash or a line end through raw
+    # ends early in the generated file
+    ctx.rule("CHR", "string/char literal functions never emit a forbidden character raw and only legal escapes (shared with C19)", floor=180)
+    from . import c19
+    from ..rules import chr as _C
+    for lang, key, modes in c19.JOBS:
+        lf = ctx.p.func(key)
+        for mode in modes:
+            for part in _C.analyse_escaper(ctx, lf, mode, _C.spec_boundaries(lang)):
+                _C.judge(ctx, "CHR", part, lang)
 
 
 def _replace_chain(e: ast.AST) -> List[Tuple[str, str]]:
@@ -93,7 +104,16 @@ def check_docstring(ctx) -> None:
     if not adjoining:
         ctx.ok("DOC-END", f, f.node, what="the text never adjoins the closing quotes")
     elif ends and fixes and all(e.lineno < j.lineno for e in ends for j in adjoining):
-        ctx.ok("DOC-END", f, ends[0], what="a trailing double quote is escaped before the text is put next to the closing quotes")
+        # the fix-up runs on text in which `"""` was already rewritten: the final quote may be escaped already; escaping it
+        # again yields an escaped backslash followed by a bare quote.  The fix-up must therefore look at the backslashes
+        # before the quote (or run on the raw text, before any replacement).
+        rep_lines = [n.lineno for n in walk_function_body(f.node) if isinstance(n, ast.Assign) and _replace_chain(n.value)]
+        on_raw = all(e.lineno < min(rep_lines) for e in ends) if rep_lines else True
+        looks_at_backslashes = any(isinstance(c, ast.Constant) and c.value == "\\" for e in ends for c in ast.walk(e))
+        if on_raw or looks_at_backslashes:
+            ctx.ok("DOC-END", f, ends[0], what="a trailing double quote is escaped (unless it is escaped already) before the text is put next to the closing quotes")
+        else:
+            ctx.fail("DOC-END", f, ends[0], "the trailing double quote is escaped without looking at the backslashes before it, after `\"\"\"` was rewritten: a text ending in three quotes gets `\\\"` + `\\\\\"`, i.e. an escaped backslash and a bare quote, and the docstring ends early", construct="docstring trailing quote already escaped")
     else:
         ctx.fail("DOC-END", f, adjoining[0], f"`{short(adjoining[0])}` puts the text directly before the closing quotes; a text ending in `\"` yields four quotes in a row and the module does not parse", construct="docstring trailing quote")
 
